@@ -57,6 +57,8 @@ def run(repo, rep):
     _memo_rule(repo, rep, 'C12', 'C12.Z1')
     from ..pitfalls import log_rule as _log_rule
     _log_rule(repo, rep, 'C12', 'C12.Z2')
+    from ..api_pitfalls import truth_rule as _truth_rule
+    _truth_rule(repo, rep, 'C12', 'C12.Z4')
     model = FsmModel(repo)
     pm = ProviderModel(repo, model)
     rep.rule('C12.E6', 'no function of the provider / state machine / codecs reads an ``except ... as name`` variable after its handler '
